@@ -82,6 +82,19 @@ func TestC07(t *testing.T) {
 		}
 		idx++
 	}
+	// a caller's SendMsg parked under back-pressure when the cancellation lands; mass cancellation under back-pressure
+	for _, sc := range c07SendParkedScenarios() {
+		if want(idx) {
+			runCwScenario(t, idx, "c07", sc, em)
+		}
+		idx++
+	}
+	for _, sc := range c07ScaleBlockedScenarios(thorough()) {
+		if want(idx) {
+			runCwScenario(t, idx, "c07", sc, em)
+		}
+		idx++
+	}
 	// regression of D-07s with the forced schedule (the select of the loop's Read is random: 40 repetitions)
 	for i := 0; i < 40; i++ {
 		if want(idx) {
@@ -166,6 +179,13 @@ func TestC06(t *testing.T) {
 	})
 	for _, sc := range serverSpecials() {
 		run("c06-server", sc)
+	}
+	for _, sc := range c06UnknownMethod() {
+		if sc.Mode == "server" {
+			run("c06-server", sc)
+		} else {
+			run("c06-e2e", sc)
+		}
 	}
 	for _, sc := range c06ReturnWindow() {
 		if sc.Mode == "server" {
